@@ -130,7 +130,10 @@ def run(job, seed):
             if 'rule:svc:base' in b1:
                 continue      # svc:base referring to itself: cyclic, invalid
             for dflt, plain in itertools.product(DEFAULTS, (False, True)):
-                rules = {'svc:base': b1, 'svc:get': b2}
+                rules = {'svc:base': b1, 'svc:get': b2,
+                         # sort order: '2', '-', '.' sort below ':'
+                         'svc2:list': 'role:member', 'svc-ext:get': '!',
+                         'svc.v2:show': '@', 'svc_x:y': 'role:admin'}
                 if dflt:
                     rules['default'] = dflt
                 if plain:
